@@ -37,6 +37,7 @@ func mergeDocuments(docA did.Document, docB did.Document) did.Document {
 
 	// for consistent results
 	sort.Slice(result.Context, contextSort(result))
+	sort.Slice(result.Controller, controllerSort(result))
 	sort.Slice(result.Service, serviceSort(result))
 	sort.Slice(result.VerificationMethod, verificationMethodSort(result))
 	sort.Slice(result.KeyAgreement, keyAgreementSort(result))
@@ -196,6 +197,14 @@ func capabilityDelegationSort(result *did.Document) less {
 	return func(i, j int) bool {
 		is := result.CapabilityDelegation[i].ID.String()
 		js := result.CapabilityDelegation[j].ID.String()
+		return strings.Compare(is, js) == -1
+	}
+}
+
+func controllerSort(result *did.Document) less {
+	return func(i, j int) bool {
+		is := result.Controller[i].String()
+		js := result.Controller[j].String()
 		return strings.Compare(is, js) == -1
 	}
 }
